@@ -16,10 +16,7 @@ def run(tier, seed):
     from .. import normalize, reads
     normalize.add_obligations(rep, "C17")
     reads.add_order_obligations(rep, "C17")
-    try:
-        add_cons(rep, "C17")
-    except ImportError:
-        pass
+    add_cons(rep, "C17")
     lines_universe(rep, "vf.oracles2:c17_lineend", tier, "MarkdownIt.parse/render", "LF <-> CRLF <-> CR give identical tokens (incl. maps) and HTML; NUL == U+FFFD; no CR/NUL in any content", cfgs=["commonmark", "js-default"])
     lines_universe(rep, "vf.oracles2:c17_tabs", tier, "MarkdownIt.parse", "leading tabs == column-exact spaces (blocks, nesting, maps, text)", cfgs=["commonmark", "cm+table+strike"])
     rep.bounded.append(bounded.run("vf.oracles2:c17_marker_tabs", "list", 0, ["commonmark"], "rules_block.blockquote / list_block", "a tab after a block quote or list marker == spaces up to the next multiple-of-four physical column",
@@ -27,7 +24,7 @@ def run(tier, seed):
     rep.bounded.append(bounded.run("vf.oracles2:c17_twoline", "list", 0, ["commonmark"], "rules_block.blockquote / list_block (continuation lines)", "same equivalence on the second line of an open container",
                                    "7 first lines x up to two (indent, marker, blanks) segments x 2 leaves", items=oracles2.c17_twoline_cases(), universe="constructed two-line documents"))
     rep.explanation = ("Mixed. Deductive: side conditions of the substitution lemma for the normalize rule (the regex literals read from the source match CR, CRLF as one unit, and NUL; replacements contain neither; the substitutions are chained from state.src back to state.src) "
-                       "and ORDER normalize-first, so no CR or NUL reaches any later rule; the physical-column invariant of the block quote marker code when contracts.cons is present. "
+                       "and ORDER normalize-first, so no CR or NUL reaches any later rule; the physical-column invariant CONS (bsCount + sCount == PhysCol(first content character), tab stops counted from the start of the physical line) is re-established by blockquote at both marker sites, first and continuation lines, all four marker/blank/tab cases (GUARD obligations, pyvc + z3 with mod-4 arithmetic). "
                        "Bounded: the equivalences themselves as relational contracts on parse/render over the line universe and the constructed marker lines.")
     rep.trusted_base = STD_TRUST
     rep.assumptions = ["re.sub substitution lemma for normalize (assumed)"]
